@@ -85,6 +85,41 @@ theorem to_reference (ps : List Param) (e target : Elem) (he : e.length = ps.len
     (refAssign ps false e target).2 = e ∧ (refAssign ps false e target).1 = e :=
   ⟨refAssign_target ps false e target he ht, refAssign_copy_source ps e target he ht⟩
 
+
+/-- Allocator-extended copy construction `Element{const Element&, allocator}`: the new element holds the source's values in
+    a block of its own from the given allocator, large enough for it; the source (values, block) and every vector are
+    untouched — a const source is never written. -/
+theorem copy_with_allocator (ew : EWorld) (ps : List Param) (a b alloc : Nat) (ea : ElemSt) (hab : a ≠ b)
+    (ha : ew.elems a = some ea) (hS : 0 < storageAl ps) (hnf : ew.w.heap.fail = none) :
+    let ew' := ew.elemCopyA ps a b alloc
+    (∃ p, ew'.elems b = some ⟨ea.val, ea.bytes, p⟩ ∧ p.alloc = alloc ∧ p.blk = some ew.w.heap.next ∧
+      ea.bytes ≤ p.units * storageAl ps) ∧
+    ew'.elems a = some ea ∧ ew'.w.vecs = ew.w.vecs := by
+  simp only [EWorld.elemCopyA, ha, Ptr.make, Heap.allocate, hnf]
+  refine ⟨⟨⟨some ew.w.heap.next, units ea.bytes (storageAl ps), alloc⟩, by simp [EWorld.setE], rfl, rfl,
+    (C05.units_tight _ _ hS).1⟩, ?_, trivial⟩
+  simp [EWorld.setE, hab, ha]
+
+/-- Allocator-extended move construction `Element{Element&&, allocator}` with an allocator equal to the source's: the
+    block changes owner, nothing is allocated, the source is left empty. -/
+theorem move_with_equal_allocator (ew : EWorld) (ps : List Param) (a b alloc : Nat) (ea : ElemSt) (hab : a ≠ b)
+    (ha : ew.elems a = some ea) (heq : ew.w.acfg.eq alloc ea.ptr.alloc = true) :
+    let ew' := ew.elemMoveA ps a b alloc
+    ew'.elems b = some ⟨ea.val, ea.bytes, ⟨ea.ptr.blk, ea.ptr.units, ea.ptr.alloc⟩⟩ ∧
+    (ew'.elems a).map (·.ptr.blk) = some none ∧ ew'.w.heap = ew.w.heap ∧ ew'.w.vecs = ew.w.vecs := by
+  simp only [EWorld.elemMoveA, ha, heq, if_true, Ptr.moveCtor]
+  refine ⟨by simp [EWorld.setE, Ne.symm hab], by simp [EWorld.setE], trivial, trivial⟩
+
+/-- ... with an unequal allocator: the new element holds the source's former values in a fresh block from the given
+    allocator; the source keeps its own block and holds moved-from values. -/
+theorem move_with_unequal_allocator (ew : EWorld) (ps : List Param) (a b alloc : Nat) (ea : ElemSt) (hab : a ≠ b)
+    (ha : ew.elems a = some ea) (hne : ew.w.acfg.eq alloc ea.ptr.alloc = false) (hnf : ew.w.heap.fail = none) :
+    let ew' := ew.elemMoveA ps a b alloc
+    ew'.elems b = some ⟨ea.val, ea.bytes, ⟨some ew.w.heap.next, ea.ptr.units, alloc⟩⟩ ∧
+    ew'.elems a = some { ea with val := movedValues ps ea.val } ∧ ew'.w.vecs = ew.w.vecs := by
+  simp only [EWorld.elemMoveA, ha, hne, Bool.false_eq_true, if_false, Ptr.make, Heap.allocate, hnf]
+  refine ⟨by simp [EWorld.setE, Ne.symm hab], by simp [EWorld.setE], trivial⟩
+
 /-- vector operations do not touch the elements, element operations on existing elements do not touch the
     vectors (field-wise copy assignment shown; the others are analogous one-liners) -/
 theorem independent (ew : EWorld) (ps : List Param) (a b : Nat) :
